@@ -244,6 +244,32 @@ def roi_edit(path, key, new, name):
     return (name, real, model)
 
 
+def roi_edit_reassign(path, key, new, name):
+    """edit the ROI object in place and assign the SAME object back through the state's setter"""
+    def real(w):
+        st = w.state
+        for a in path:
+            st = getattr(st, a)
+        r = st.roi
+        r.move_to(*new)
+        st.roi = r
+
+    def model(p):
+        p['s'][key] = list(new)
+    return (name, real, model)
+
+
+def catroi_edit_reassign():
+    def real(w):
+        r = w.state.roi
+        r.update_categories(['b'])
+        w.state.roi = r
+
+    def model(p):
+        p['s']['cats'] = ['b']
+    return ('edit+set:roi', real, model)
+
+
 def mk_ineq(w, s):
     return w.cx > sp(s, 'thr', 2.5)
 
@@ -356,12 +382,13 @@ KINDS = {
     'multior': dict(s0=dict(thr=4.5, lo=0.5, hi=2.5), make=mk_multior, muts=DATA + [m_refresh(4)]),
     'and_roi': dict(s0=dict(cen=[2.5, 4.0], thr=1.5), make=mk_and_roi, muts=DATA + [mover([], 'cen', (4.5, 3.0), 'move_to:composite'),
                                                    mover(['state1'], 'cen', (3.5, 2.0), 'move_to:child'),
-                                                   roi_edit(['state1'], 'cen', (5.0, 4.0), 'edit:child.roi.move_to')]),
+                                                   roi_edit(['state1'], 'cen', (5.0, 4.0), 'edit:child.roi.move_to'),
+                                                   roi_edit_reassign(['state1'], 'cen', (3.0, 3.0), 'edit+set:child.roi')]),
     'roi': dict(s0=dict(cen=[2.5, 4.0]), make=mk_roi, muts=DATA + [mover([], 'cen', (4.5, 3.0), 'move_to'),
                                           roi_edit([], 'cen', (5.0, 4.0), 'edit:roi.move_to')]),
     'deep': dict(s0=dict(thr=2.5, thr2=4.5, thr3=4.5), make=mk_deep, muts=DATA + [setter(['state1', 'state1'], 'right', 3.5, 'thr'),
                                             setter(['state2', 'state1'], 'right', 5.5, 'thr3')]),
-    'catroi': dict(s0=dict(cats=['a']), make=mk_catroi, muts=[m_refresh(6), m_refresh(4), catroi_set_roi(), catroi_edit_roi()]),
+    'catroi': dict(s0=dict(cats=['a']), make=mk_catroi, muts=[m_refresh(6), m_refresh(4), catroi_set_roi(), catroi_edit_roi(), catroi_edit_reassign()]),
     'category': dict(s0=dict(codes=[0]), make=mk_category, muts=[m_refresh(6), m_refresh(4), setter([], 'categories', [1, 2], 'codes')]),
     'element': dict(s0=dict(idx=[1, 3]), make=mk_element, muts=DATA + [setter([], 'indices', [0, 2, 4], 'idx')]),
     'mask': dict(s0=dict(mask=[True, False, True, False, False, True]), make=mk_mask, muts=DATA + [mask_set()]),
